@@ -66,10 +66,14 @@ GEN_TMPL = """---- MODULE %(name)s ----
 EXTENDS %(mod)s, Json
 VARIABLE hist
 GInit == Init /\\ hist = <<>>
-GNext == \\E o \\in Ops : Do(o) /\\ hist' = Append(hist, o)
+GOps == %(gops)s
+IsSetup(o) == o.op \\in %(setup)s
+NSetup(h) == Cardinality({i \\in 1..Len(h) : IsSetup(h[i])})
+\\* setup operations only as a prefix of the history
+GNext == \\E o \\in GOps : (IsSetup(o) => NSetup(hist) = Len(hist)) /\\ Do(o) /\\ hist' = Append(hist, o)
 Emit == PrintT("EDGE " \\o ToJson([hist |-> hist', pre |-> Proj, ret |-> ret', st |-> Proj']))
 GView == AbsView
-Bound == Len(hist) <= %(depth)d
+Bound == Len(hist) - NSetup(hist) <= %(depth)d /\\ NSetup(hist) <= %(maxsetup)d
 %(extra)s
 ====
 """
@@ -183,12 +187,14 @@ def _replay_chunk(lines):
 
 def gen_replay(ctx, mod, constants, depth, adapter, acfg=None, invariants=(), properties=(),
                classify=None, label="gen", extra_defs="", constraints=(), simulate=None,
-               sim_depth=None, timeout=3000, action_constraints=()):
+               sim_depth=None, timeout=3000, action_constraints=(), gops="Ops", setup=(),
+               maxsetup=0):
     """Run TLC (exhaustive BFS, or -simulate) on the generation wrapper and replay every
     EDGE on the implementation.  Returns dict of counters."""
     global _ADAPTER, _ACFG
     name = "%s_%s" % (mod, label)
-    text = GEN_TMPL % dict(name=name, mod=mod, depth=depth,
+    text = GEN_TMPL % dict(name=name, mod=mod, depth=depth, gops=gops, maxsetup=maxsetup,
+                           setup=core.tla_set(core.tla_str(x) for x in setup),
                            extra=extra_defs + "\n" + const_defs(constants))
     cfg = cfg_text("GInit", "GNext", constants, invariants=invariants, properties=properties,
                    view=None if simulate else "GView",
